@@ -509,7 +509,7 @@ pub fn cases(opts: &Opts) -> Vec<Case> {
         }
         out.push(Case { name: format!("layered/{layers}"), files, proj: None });
     }
-    let n = opts.n(500, 600);
+    let n = opts.n(440, 600);
     for i in 0..n {
         let mut p = Prng::derive(opts.seed, i as u64, "c04-project");
         let cfg = GenCfg::swarm(&mut p);
@@ -572,6 +572,14 @@ pub fn prepare(sb: &Sandbox, case: &Case) -> (Files, Vec<OpSpec>, Vec<String>, V
                 a.push(format!("{{ROOT}}/out2/{name}"));
                 opsv.push(OpSpec { entry: cmd.into(), args: a });
             }
+            // the same build over the existing store (its own earlier output is in the way)
+            let mut a = vec![s("goml"), s("build"), s("--package"), name.clone(), s("--input")];
+            a.extend(pk.files.iter().map(|f| format!("{{ROOT}}/{f}")));
+            a.push(s("--interface-path"));
+            a.push(s("{ROOT}/out"));
+            a.push(s("--output"));
+            a.push(format!("{{ROOT}}/out/{name}"));
+            opsv.push(OpSpec { entry: "build".into(), args: a });
         }
         // (the link operation is exercised whenever every package built, even if the fault-free
         // link itself failed or crashed: that is then reported by its baseline run)
@@ -918,6 +926,27 @@ fn check_case(sb: &Sandbox, opts: &Opts, idx: usize, case: &Case, per_op: usize,
                             for extra_field in [false, true] {
                                 plans.push(FaultPlan { store: StoreFault::DeepSplice { path: path.clone(), pick, depth, extra_field }, spec: clean_spec.clone() });
                             }
+                        }
+                    }
+                }
+            }
+            // the system refuses a thread the operation asks for (the fault-free run tells how many)
+            let nthreads = baseline.counts.get("thread").copied().unwrap_or(0);
+            for nth in 0..nthreads.min(if enumerate { 8 } else { 2 }) {
+                plans.push(FaultPlan { store: StoreFault::None, spec: ProcSpec { thread_fail: Some(nth), ..clean_spec.clone() } });
+            }
+            // an artifact the operation opens (its dependencies' or, when it builds over an
+            // existing store, its own earlier output) cut short in its last bytes: a write that
+            // was interrupted just before the end
+            if op.entry != "run" && (enumerate || (idx + oi) % 3 == 0 || op.args.iter().any(|a| a.contains("/out/") && !a.ends_with(".core") && !a.ends_with("/out"))) {
+                let arts: Vec<&String> = artifacts.iter().filter(|a| baseline.opened.contains(*a)).collect();
+                let chosen: Vec<&String> = if enumerate || arts.len() <= 2 { arts.clone() } else { vec![*p.pick(&arts), *p.pick(&arts)] };
+                for path in chosen {
+                    let len = base.get(path).map(|b| b.len()).unwrap_or(0);
+                    let tail: Vec<usize> = if enumerate { (1..=128).collect() } else { vec![1, 2, 3, 5, 9, 17, 33, 50, 65, 66, 67, 90] };
+                    for k in tail {
+                        if k < len {
+                            plans.push(FaultPlan { store: StoreFault::TruncateAt { path: path.clone(), at: len - k }, spec: clean_spec.clone() });
                         }
                     }
                 }
